@@ -53,7 +53,7 @@ func init() {
 		"exhaustive relative to the listed universes (key alphabets, setup histories); closure is to fixpoint on the dedup state key, whose erasures (dead inline path bytes, free node16 lanes, node48 slot numbers) are guarded by raw variants and the poison differential",
 		"reference models (ideal map, oracle comparators) and the structural walker in verif_hooks.go are trusted",
 	}
-	for _, p := range []string{"C01", "C02", "C03", "C04", "C05", "C06"} {
+	for _, p := range []string{"C01", "C02", "C03", "C04", "C05", "C06", "C11", "C14", "C15", "C08"} {
 		props[p] = &propInfo{Level: "model_checking", Assume: e1Assume, Jobs: histJobs(p),
 			Rule: "explicit-state BFS to closure over Insert/Delete histories of real trees per universe; every new state gets the property's full query suite; a (state,query) evaluation is non-trivial when the reference answer is non-empty / the key is present; distinct because states are deduplicated by structural hash"}
 	}
@@ -300,9 +300,13 @@ func cmdRun(args []string) {
 	if info.PostMerge != nil {
 		info.PostMerge(ev)
 	}
-	os.MkdirAll(filepath.Join(verifDir, "evidence"), 0o755)
+	evDir := filepath.Join(verifDir, "evidence")
+	if d := os.Getenv("VERIF_EVIDENCE_DIR"); d != "" {
+		evDir = d
+	}
+	os.MkdirAll(evDir, 0o755)
 	b, _ := json.MarshalIndent(ev, "", " ")
-	os.WriteFile(filepath.Join(verifDir, "evidence", *prop+".json"), b, 0o644)
+	os.WriteFile(filepath.Join(evDir, *prop+".json"), b, 0o644)
 
 	fmt.Printf("%s %s: %d jobs, %d states (+%d raw variants), %d transitions, %d evaluations (%d non-trivial), exhaustive=%v, %.1fs\n",
 		*prop, *tier, len(jobs), tot.States, tot.Variants, tot.Transitions, tot.Evaluations, tot.Nontrivial, cov["exhaustive"], time.Since(start).Seconds())
